@@ -58,3 +58,51 @@ Theorem C15_count_exact : forall broken lk cs ds ls mid ok cnt lk' cs',
   cnt = csize cs - csize cs' /\ cs_nodup cs'.
 Proof. exact invalidate_name_count. Qed.
 Print Assumptions C15_count_exact.
+
+(* ---- tie to the source: the function bodies below are re-translated from /repo on every run
+   (harness/cmd/gofunc -> theories/Generated/Funcs.v, interpreted by theories/GoIR.v) ---- *)
+From Coq Require Import String.
+From Cache Require Import GoIR.
+From Cache.Generated Require Import Funcs.
+Open Scope string_scope.
+Open Scope Z_scope.
+From Coq Require Import String.
+From Cache Require Import GoIR TieIndex.
+From Cache.Generated Require Import Funcs.
+Open Scope string_scope.
+Open Scope Z_scope.
+
+(* the loop bodies of the index are the steps Index.v folds over (see theories/TieIndex.v for each statement) *)
+Theorem C15_source_add_labels : forall has_map,
+  run_add_labels has_map =
+  Some ([("Lock", []); ("defer i.mu.Unlock", [])] ++
+        (if has_map then [] else [("assign i.labeledKeysByName[cacheName]", [VPtr true "new label map"])]) ++
+        [("for each label: labeledKeys[label] = append(labeledKeys[label], ks)", [VPtr true "string(key)"])])%list.
+Proof. exact tie_add_labels. Qed.
+Print Assumptions C15_source_add_labels.
+
+Theorem C15_source_cut_and_delete : forall already r cnt deleted,
+  run_cut already = Some (if already then ([], true)
+                          else ([("assign res[label]", [VPtr true "keys of the label"]); ("delete(labeledKeys, label)", [])], false)) /\
+  run_inner r cnt = Some (match r with DelOk => (cnt + 1, false) | DelNotFound => (cnt, false) | DelFail => (cnt, true) end) /\
+  run_mid deleted = Some (if deleted then ([], true) else ([("for each cache: delete", []); ("assign deleted[k]", [VB true])], false)) /\
+  run_after_label = Some [("delete(cutKeys, label)", [])].
+Proof.
+  intros; split; [exact (tie_cut_keys _)|split; [exact (tie_delete_one _ _)|split; [exact (tie_delete_key _)|exact tie_label_done]]].
+Qed.
+Print Assumptions C15_source_cut_and_delete.
+
+Theorem C15_source_put_back : forall left,
+  run_put_back left =
+  Some (if 0 <? left
+        then [("Lock", []); ("defer i.mu.Unlock", []);
+              ("for each label left in the cut: labeledKeys[label] = append(labeledKeys[label], its keys not yet deleted...)", [])]
+        else []).
+Proof. exact tie_put_back. Qed.
+Print Assumptions C15_source_put_back.
+
+Theorem C15_source_invalidate_by_labels :
+  run_ibl = Some [("Lock", []); ("snapshot of the index and of the caches, per name", []); ("Unlock", []);
+                  ("for each name of the snapshot: invalidate, add up, stop at the first error", [])].
+Proof. exact tie_invalidate_by_labels. Qed.
+Print Assumptions C15_source_invalidate_by_labels.
